@@ -73,7 +73,9 @@ def main():
                     env = dict(os.environ, FAST_TICC_REPO=wt, TICCMON_EVIDENCE_DIR=wt + "/.ev", TICCMON_REPLAY_DIR=wt + "/.rp")
                     r = subprocess.run(["/verif/check", c, "--tier", "quick"], env=env, capture_output=True, text=True)
                     wit = [l.strip()[:160] for l in r.stdout.splitlines() if "witness" in l or "INCONCLUSIVE" in l][:1]
-                    parts.append("%s rc=%d %s" % (c, r.returncode, wit[0] if wit else ""))
+                    viol = any(l.startswith("VIOLATION property=") for l in r.stdout.splitlines())
+                    rc = r.returncode if (r.returncode != 1 or viol) else 3     # 3 = exit 1 without a VIOLATION line (harness crash)
+                    parts.append("%s rc=%d %s" % (c, rc, wit[0] if wit else ""))
                 line = "%s | import_rc=%d | %s" % (name, rc0, " || ".join(parts))
         finally:
             subprocess.run(["git", "-C", "/repo", "worktree", "remove", "--force", wt], capture_output=True)
